@@ -1,5 +1,6 @@
 import XrsVerif.Proofs.KSimp
 import XrsVerif.Gen.Kernels
+import XrsVerif.Proofs.Sphere
 import Mathlib.Analysis.SpecialFunctions.Trigonometric.Inverse
 import Mathlib.Analysis.SpecialFunctions.Trigonometric.Arctan
 import Mathlib.Analysis.SpecialFunctions.Complex.Arg
@@ -286,6 +287,24 @@ theorem hav_eq_zero_iff (p q : ℝ × ℝ) (hp : inRange p) (hq : inRange q) :
     · rw [z1.mpr h]; ring
     · have e2 : s2 = 0 := lon.mpr (Or.inr h)
       rw [e2]; ring
+
+/-- the haversine term of the kernel is `Sphere.hv` of the coordinates in radians -/
+theorem hav_eq_hv (p q : ℝ × ℝ) : hav p q = Sphere.hv (rad p.1) (rad p.2) (rad q.1) (rad q.2) := by
+  unfold hav Sphere.hv
+  simp only [trig_sin, trig_cos]
+
+theorem rad_lat_range (p : ℝ × ℝ) (hp : inRange p) : -(π / 2) ≤ rad p.2 ∧ rad p.2 ≤ π / 2 := by
+  rw [rad_eq]
+  have := Real.pi_pos
+  constructor <;> nlinarith [hp.2.2.1, hp.2.2.2]
+
+/-- central angles obey the triangle inequality -/
+theorem hav_triangle (p q r : ℝ × ℝ) (hp : inRange p) (hq : inRange q) (hr : inRange r) :
+    2 * Real.arcsin (Real.sqrt (hav p r)) ≤
+      2 * Real.arcsin (Real.sqrt (hav p q)) + 2 * Real.arcsin (Real.sqrt (hav q r)) := by
+  rw [hav_eq_hv, hav_eq_hv, hav_eq_hv]
+  exact Sphere.haversine_triangle _ _ _ _ _ _ (rad_lat_range p hp).1 (rad_lat_range p hp).2
+    (rad_lat_range q hq).1 (rad_lat_range q hq).2 (rad_lat_range r hr).1 (rad_lat_range r hr).2
 
 end real
 end XrsVerif.Metrics
